@@ -362,3 +362,69 @@ Proof.
   split; [vm_compute; reflexivity|]. split; [vm_compute; reflexivity|].
   vm_compute. repeat split; reflexivity.
 Qed.
+
+(* ====================================================================== comment lines and blank lines *)
+(* REPAIRED reader (peek_statement): in every mode of the line classifier a blank line changes nothing and a
+   comment line gives its SComment and leaves the mode as it is - also between .model and the port lines,
+   inside a truth table, inside the .cname/.attr/.param block of an instance *)
+Definition gap_line (l : line) : Prop := l = [] \/ exists c, l = k_hash :: c.
+Definition gap_stmts (l : line) : list stmt :=
+  match l with [] => [] | _ :: c => [SComment c] end.
+
+Lemma cl_line_gap md l : gap_line l -> cl_line md l = Ok (gap_stmts l, md).
+Proof.
+  intros [->|[c ->]].
+  - destruct md; reflexivity.
+  - destruct md; cbn [cl_line gap_stmts]; unfold cl_top, cl_hdr, cl_plain, cl_rows, cl_info;
+      change (is_row_tok k_hash) with false; rewrite ?str_eqb_refl; reflexivity.
+Qed.
+
+Lemma classify_from_gap md l d :
+  gap_line l -> classify_from md (l :: d) = (do r <- classify_from md d; Ok (gap_stmts l ++ r)).
+Proof. intro H. cbn [classify_from]. rewrite (cl_line_gap md l H). reflexivity. Qed.
+
+(* the reading of a document splits at any line boundary: a prefix is read up to some mode, the rest from it *)
+Lemma classify_from_split d1 : forall md d2 r,
+  classify_from md (d1 ++ d2) = Ok r ->
+  exists md' s1 s2, r = s1 ++ s2 /\ classify_from md' d2 = Ok s2 /\
+    forall d2' s2', classify_from md' d2' = Ok s2' -> classify_from md (d1 ++ d2') = Ok (s1 ++ s2').
+Proof.
+  induction d1 as [|l d1 IH]; intros md d2 r H.
+  - exists md, [], r. split; [reflexivity|]. split; [exact H|]. intros d2' s2' H'. exact H'.
+  - cbn [app classify_from] in H. apply bind_ok in H as [[s md1] [H1 H2]]. apply bind_ok in H2 as [rest [H2 H3]].
+    inversion H3; subst r. destruct (IH md1 d2 rest H2) as [md' [s1 [s2 [E1 [E2 E3]]]]].
+    exists md', (s ++ s1), s2. split; [rewrite E1, app_assoc; reflexivity|]. split; [exact E2|].
+    intros d2' s2' H'. cbn [app classify_from]. rewrite H1. cbn [bind]. rewrite (E3 d2' s2' H'). cbn [bind].
+    rewrite app_assoc. reflexivity.
+Qed.
+
+Lemma tokenized_gap l : gap_line l -> line_tokenized l = true.
+Proof. intros [->|[c ->]]; [reflexivity|]. unfold line_tokenized. rewrite str_eqb_refl. reflexivity. Qed.
+
+(* a comment line or blank line inserted at ANY line boundary of an accepted document: the document is still
+   accepted, and its statements are the same ones with the comment at that place *)
+Theorem gap_insertion d1 d2 l r :
+  gap_line l -> classify (d1 ++ d2) = Ok r ->
+  exists s1 s2, r = s1 ++ s2 /\ classify (d1 ++ l :: d2) = Ok (s1 ++ gap_stmts l ++ s2).
+Proof.
+  intros Hl H. unfold classify in H |- *.
+  destruct (tokenized (d1 ++ d2)) eqn:Et; [|discriminate].
+  assert (Et' : tokenized (d1 ++ l :: d2) = true).
+  { unfold tokenized in Et |- *. rewrite forallb_app in Et |- *. apply andb_true_iff in Et as [A B].
+    cbn [forallb]. rewrite A, B, (tokenized_gap l Hl). reflexivity. }
+  rewrite Et'. destruct (classify_from_split d1 MTop d2 r H) as [md' [s1 [s2 [E1 [E2 E3]]]]].
+  exists s1, s2. split; [exact E1|]. apply E3. rewrite (classify_from_gap md' l d2 Hl), E2. reflexivity.
+Qed.
+
+(* the end of the file closes the model in every mode inside a model *)
+Lemma eof_closes md : md <> MTop -> classify_from md [] = Ok [SEnd].
+Proof. destruct md; [congruence| | | |]; reflexivity. Qed.
+
+(* so a blank line, wherever it is put, changes nothing of what the reader builds *)
+Theorem blank_line_irrelevant d1 d2 n : elab (d1 ++ d2) = Ok n -> elab (d1 ++ [] :: d2) = Ok n.
+Proof.
+  unfold elab. intro H. apply bind_ok in H as [ss [H1 H2]].
+  destruct (gap_insertion d1 d2 [] ss (or_introl eq_refl) H1) as [s1 [s2 [E1 E2]]].
+  change (s1 ++ gap_stmts [] ++ s2) with (s1 ++ s2) in E2. rewrite <- E1 in E2.
+  exact (eq_trans (f_equal (fun r => bind r elab_stmts) E2) H2).
+Qed.
